@@ -93,7 +93,7 @@ func c07CLI(jobs []fwproto.Job, results []fwproto.Result, want int) ([]cliViol, 
 
 // cliMode: what the stock kddp is asked to produce
 type cliMode struct {
-	Ext  string `json:"ext"`            // "" executable, ".ll", ".o", ".s"
+	Ext  string `json:"ext"`           // "" executable, ".ll", ".o", ".s"
 	Mods bool   `json:"module_linken"` // --module-linken
 }
 
